@@ -2,7 +2,7 @@
 """Regenerates MANIFEST.json from the table below (kept in one place so the file stays valid)."""
 import json, os
 ROOT = os.path.dirname(os.path.abspath(__file__))
-HOOK_COMMITS = ["d44dd5f"]
+HOOK_COMMITS = ["d44dd5f"]  # fix commits (unguarded): 4866329 (C06), 12c2b27 (C10/C09)
 BASELINE_OFF = ("cd /repo && go build ./... && go test -json -vet=off -count=1 -timeout 25m ./...")
 
 CHECKS = {}
@@ -13,6 +13,11 @@ add("C06", "exploration",
     "Generated pairs/triples from every value class are compared through value.Compare and through parser+evaluator with an independent model of the documented coercion ladder, the reference-free laws (antisymmetry, <> = NOT =, <= = < OR =, trichotomy), the documented expansions of BETWEEN/IN/ANY/ALL/CASE/IS, Kleene tables, and arithmetic typing/value/agreement/modulo-sign rules. Search, not proof: holds on the cases generated.",
     "Trusted: the reference ladder in internal/ref (written from the manual), Go's strconv/time/big for exact values. Open outcomes (number vs non-numeric text at the text rung; non-modelled datetime/number spellings; int64 overflow) are excluded and counted.",
     "property-based testing (rapid) against a reference model + algebraic/metamorphic laws", "DESIGN.md §3 C06")
+
+add("C10", "fault_enumeration",
+    "For generated repositories and transactions, a dry run records every verification point the real csvq process passes from Transaction.Commit to exit; the process is then killed (SIGKILL to itself) at EVERY such point on a fresh copy. Oracle: each pre-existing table exists and is byte-identical to its old or new contents; after deleting the hidden control files a fresh csvq reads and updates every table. Exhaustive over the hooked points of each generated case, sampled over cases.",
+    "Trusted: the hook placement (points sit between file-system calls of lib/file and Transaction.Commit), SIGKILL as the crash model (no torn write(2), no power loss), new contents taken from an uninterrupted run.",
+    "fault injection at enumerated crash points over generated transactions (rapid) with an old-or-new byte oracle", "DESIGN.md §3 C10")
 
 NOT_YET = {}
 
